@@ -4,11 +4,12 @@ import StirVerif.C16.Model
 namespace StirVerif.C16
 
 /-- a small concrete world: template k has 12 detectors x 2 rings, 5 tangential positions, 3 segments;
-    threshold 0 keeps 8 scatter points, any other threshold 4 -/
+    threshold 0 keeps 8 scatter points, any other threshold 4; template 3 is a BlocksOnCylindrical one -/
 def W0 : World :=
   { tmpl := fun k => ⟨k, 12, 2, 5, 3⟩
     nsp := fun p => if p.thr = 0 then 8 else 4
     defaultDsRings := fun _ => 2
+    blocksBase := fun k => k == 3
     zOk := fun _ => true }
 
 /-- `set_thr 0; set_tmpl 0; set_exam 0; set_act 0; set_att 0; set_zoom 0; set_spimg 0` -/
@@ -60,6 +61,17 @@ def histZoom : List Op :=
    .setUp, .process, .setZoom 1, .setUp]
 /-- the history the design suspected: another scatter-point image with the same number of scatter points -/
 def histSpImage : List Op := baseConfig ++ [.setUp, .process, .setSpImage (some 1), .setUp]
+
+/-- in-place changes of the activity image (values 1, then 2), of the attenuation image and of the scatter-point image,
+    each followed by the setter with the same pointer and `set_up`, on a BlocksOnCylindrical template that was down-sampled
+    explicitly -/
+def histInPlace : List Op :=
+  [.setThr 0, .setTemplate (W0.tmpl 3), .downsampleScanner 2 (-1), .setExam 0, .setActivityInPlace 0, .setDensityInPlace 0, .setZoom 0,
+   .setSpImageInPlace 0, .setUp, .process, .setActivityInPlace 1, .setUp, .process, .setActivityInPlace 2, .setDensityInPlace 1,
+   .setSpImageInPlace 1, .setUp]
+
+theorem histInPlace_fresh : freshAfter W0 histInPlace = true := by decide
+theorem histInPlace_guarded : (runGuarded W0 init histInPlace).isSome = true := by decide
 
 theorem histExam_stale : staleAfter W0 histExam = true := by decide
 theorem histEnableCache_crash : crashAfter W0 histEnableCache = true := by decide
